@@ -5,7 +5,7 @@
      (filter change of one of two overlapping subscriptions) and F38 (initial values overtaken by a pending removal). *)
 From Coq Require Import List NArith ZArith Bool Arith Lia.
 From Muscle Require Import Gen.Consts Refl.Base Refl.BaseProofs Refl.Tree Refl.Matcher Refl.Traverse Refl.Session Refl.Server
-     Refl.ServerProofs Refl.RefcountProofs Refl.Mirror Refl.MirrorSubscribe Refl.MirrorCmd Refl.MirrorFrame Refl.MirrorProofs Refl.MirrorCheck Refl.Concrete Refl.Examples.
+     Refl.ServerProofs Refl.RefcountProofs Refl.Mirror Refl.MirrorSubscribe Refl.MirrorCmd Refl.MirrorFrame Refl.MirrorQuiet Refl.MirrorProofs Refl.MirrorCheck Refl.Concrete Refl.Examples.
 Import ListNotations.
 Local Open Scope N_scope.
 
@@ -106,16 +106,17 @@ Definition exg : list event :=
     ECmd 1 (CSetData 0 [([21], 9)]) ].
 
 Lemma exg_premises :
-  wf_wrun all_fixed empty_world exg /\ Forall (ev_ok 0) exg /\ clean_wrun all_fixed 0 empty_world exg /\ small (run_budget exg).
+  wf_wrun all_fixed empty_world exg /\ ok_wrun all_fixed 0 empty_world exg /\ small (run_budget exg).
 Proof.
   split; [apply wf_wrun_b_spec; vm_compute; reflexivity|].
-  split; [apply ev_ok_b_spec; vm_compute; reflexivity|].
   split; [|unfold small; vm_compute; reflexivity].
+  assert (Ha : forall w ev, ev_ok_b 0 ev = true -> ev_ok 0 w ev) by (intros; now apply ev_ok_b_one).
   assert (Hb : forall w ev, ev_clean_b 0 ev = true -> ev_clean 0 w ev) by (intros; now apply ev_clean_b_one).
-  cbn [clean_wrun exg].
-  split; [apply Hb; reflexivity|]. split; [apply Hb; reflexivity|]. split; [apply Hb; reflexivity|].
-  split; [apply Hb; reflexivity|]. split; [apply Hb; reflexivity|].
-  split; [|split; [|split; [apply Hb; reflexivity|exact I]]].
+  cbn [ok_wrun exg].
+  split; [apply Ha; reflexivity|split; [apply Hb; reflexivity|]]. split; [apply Ha; reflexivity|split; [apply Hb; reflexivity|]].
+  split; [apply Ha; reflexivity|split; [apply Hb; reflexivity|]]. split; [apply Ha; reflexivity|split; [apply Hb; reflexivity|]].
+  split; [apply Ha; reflexivity|split; [apply Hb; reflexivity|]].
+  split; [apply Ha; reflexivity|split; [|split; [apply Ha; reflexivity|split; [|split; [apply Ha; reflexivity|split; [apply Hb; reflexivity|exact I]]]]]].
   - (* GETDATA a* *)
     cbn [ev_clean]. intros _. split; [exact I|left]. split; [reflexivity|]. intros ss Hss. vm_compute in Hss. inversion Hss; subst ss. clear Hss.
     cbn [cmd_covered]. split; [repeat constructor; intros []|]. split.
@@ -136,3 +137,51 @@ Example exg_nontrivial :
   holds_at (world_run all_fixed exg empty_world) 0 [1; 11; 21] = true
   /\ option_map (fun c => length (c_mirror c)) (find (fun c => N.eqb (c_id c) 0) (w_clients (world_run all_fixed exg empty_world))) = Some 2%nat.
 Proof. vm_compute. split; reflexivity. Qed.
+
+(* ------------------------------------------------------------------ quiet changes where the observer cannot see (quiet_frame) *)
+
+(* the observer 0 subscribes to /*/11/* only; session 2 (named 12) sets and removes quietly in its own subtree *)
+Definition exq : list event :=
+  [ EAttach 0 1 10; EAttach 1 1 11; EAttach 2 1 12;
+    ECmd 0 (CSubscribe false [(Abs [CAny; CLit 11; CAny], None)]);
+    ECmd 1 (CSetData 0 [([21], 6)]);
+    ECmd 2 (CSetData c_SETDATANODE_FLAG_QUIET [([21], 7); ([22; 23], 8)]);
+    ECmd 2 (CBatch [CRemoveData true [([CLit 22], None)]; CSetData 0 [([24], 1)]]);
+    ECmd 1 (CSetData 0 [([21], 9)]) ].
+
+Lemma exq_hidden : hidden_data [mkEntry [CAny; CLit 11; CAny] None] [1; 12].
+Proof.
+  intros e [He|[]] q Hq. subst e. apply is_prefix_spec in Hq as [r Hr]. subst q. cbn [e_pat].
+  destruct r as [|x [|y r]]; reflexivity.
+Qed.
+
+Lemma exq_premises :
+  wf_wrun all_fixed empty_world exq /\ ok_wrun all_fixed 0 empty_world exq /\ small (run_budget exq).
+Proof.
+  split; [apply wf_wrun_b_spec; vm_compute; reflexivity|].
+  split; [|unfold small; vm_compute; reflexivity].
+  assert (Ha : forall w ev, ev_ok_b 0 ev = true -> ev_ok 0 w ev) by (intros; now apply ev_ok_b_one).
+  assert (Hb : forall w ev, ev_clean_b 0 ev = true -> ev_clean 0 w ev) by (intros; now apply ev_clean_b_one).
+  assert (Hq : forall w c, (forall so sb, get_session (w_srv w) 0 = Some so -> get_session (w_srv w) 2 = Some sb ->
+                           all_entries (s_subs so) = [mkEntry [CAny; CLit 11; CAny] None] /\ session_dir sb = [1; 12]) ->
+               (cmd_depth c <= max_batch_nest)%nat -> ev_ok 0 w (ECmd 2 c)).
+  { intros w c H Hd. split; [right|exact Hd]. split; [discriminate|]. intros so sb H1 H2. destruct (H so sb H1 H2) as [E1 E2].
+    rewrite E1, E2. exact exq_hidden. }
+  cbn [ok_wrun exq].
+  split; [apply Ha; reflexivity|split; [apply Hb; reflexivity|]]. split; [apply Ha; reflexivity|split; [apply Hb; reflexivity|]].
+  split; [apply Ha; reflexivity|split; [apply Hb; reflexivity|]]. split; [apply Ha; reflexivity|split; [apply Hb; reflexivity|]].
+  split; [apply Ha; reflexivity|split; [apply Hb; reflexivity|]].
+  split; [|split; [apply Hb; reflexivity|]].
+  { apply Hq; [|vm_compute; lia]. intros so sb H1 H2. vm_compute in H1, H2. inversion H1; inversion H2; subst. split; reflexivity. }
+  split; [|split; [apply Hb; reflexivity|]].
+  { apply Hq; [|vm_compute; lia]. intros so sb H1 H2. vm_compute in H1, H2. inversion H1; inversion H2; subst. split; reflexivity. }
+  split; [apply Ha; reflexivity|split; [apply Hb; reflexivity|exact I]].
+Qed.
+
+(* the observer holds ab of session 1 with its current payload and nothing of session 2 *)
+Example exq_nontrivial :
+  holds_at (world_run all_fixed exq empty_world) 0 [1; 11; 21] = true
+  /\ holds_at (world_run all_fixed exq empty_world) 0 [1; 12; 21] = true
+  /\ option_map (fun c => length (c_mirror c)) (find (fun c => N.eqb (c_id c) 0) (w_clients (world_run all_fixed exq empty_world))) = Some 1%nat
+  /\ length (sv_tree (w_srv (world_run all_fixed exq empty_world))) = 7%nat.
+Proof. vm_compute. repeat split; reflexivity. Qed.
